@@ -6,17 +6,17 @@ CONSTANTS
   Delays = {TRUE, FALSE}
   Lates = {TRUE, FALSE}
   Threads = {1}
-  MaxAdds = 4
+  MaxAdds = 3
   MaxEnds = 100
-  AtomicAdd = TRUE
+  AtomicAdd = FALSE
   ClosedRefuses = TRUE
   SplitGet = FALSE
   RecheckOnStore = TRUE
   StaleTimers = FALSE
   EarlyDel = TRUE
-  MaxGen = 3
+  MaxGen = 1
   BatchedKinds = {"pub", "join", "leave", "other"}
-  SubSplit = FALSE
+  SubSplit = TRUE
   CfgSwitch = "none"
 VIEW SubView
 INVARIANTS TypeOK LatUnique PendingAgree TimerSane NoLeftover WireOrdered
